@@ -37,6 +37,8 @@ var requests = map[string]map[string][]string{
 	"all":    {"": {"audio", "video"}},
 	"camA":   {"camera": {"audio"}},
 	"low":    {"": {"video-low"}},
+	// both qualities asked for: the full one wins
+	"both":   {"": {"audio", "video", "video-low"}},
 	"screen": {"screenshare": {"video"}},
 	// everything except screenshares: an explicit empty list for a label must
 	// not fall back to the default
@@ -150,9 +152,9 @@ func (w *world) Ops() []seqx.Op {
 			}
 			continue
 		}
-		rs := []string{"all", "camA", "low", "nocam"}
+		rs := []string{"all", "camA", "low", "nocam", "both"}
 		if full {
-			rs = []string{"all", "camA", "low", "screen", "none", "noscreen", "nocam"}
+			rs = []string{"all", "camA", "low", "screen", "none", "noscreen", "nocam", "both"}
 		}
 		for _, r := range rs {
 			if r != sb.request {
@@ -173,6 +175,9 @@ func (w *world) Ops() []seqx.Op {
 		}
 		if full {
 			ops = append(ops, op{C: i, Kind: "leave"})
+			if i == 2 && sb.group == "g" {
+				ops = append(ops, op{C: 2, Kind: "switch", Arg: "h"})
+			}
 		}
 	}
 	for k := range w.w.Tasks() {
@@ -370,6 +375,16 @@ func (w *world) endStream(id string) {
 
 func (w *world) Apply(x seqx.Op) *core.Violation {
 	o := x.(op)
+	if o.Kind == "switch" {
+		// the client moves to another group: leave, join, request
+		for _, step := range []op{{C: o.C, Kind: "leave"}, {C: o.C, Kind: "join", Arg: o.Arg}, {C: o.C, Kind: "request", Arg: "all"}} {
+			if v := w.Apply(step); v != nil {
+				return v
+			}
+		}
+		w.outcome = "switch"
+		return nil
+	}
 	w.outcome = o.Kind
 	w.nmsg++
 	var obs sig.Obs
@@ -429,6 +444,16 @@ func (w *world) Apply(x seqx.Op) *core.Violation {
 	case "replace":
 		old := w.streams[o.Arg2]
 		w.streams[o.Arg] = &stream{id: o.Arg, label: old.label, alive: w.present}
+		// the replacement takes over the per-stream request of the
+		// connection it replaces
+		for _, sb := range w.subs {
+			if sb == nil {
+				continue
+			}
+			if ov, ok := sb.override[o.Arg2]; ok && w.present {
+				sb.override[o.Arg] = ov
+			}
+		}
 		w.endStream(o.Arg2)
 		obs = w.w.Send(0, sig.Msg{"type": "offer", "id": o.Arg, "label": old.label, "replace": o.Arg2, "source": "c0", "username": "bob", "sdp": sig.OfferSDP("av")})
 	case "track":
@@ -457,6 +482,8 @@ func (w *world) Apply(x seqx.Op) *core.Violation {
 		obs = w.w.Send(0, sig.Msg{"type": "close", "id": o.Arg, "source": "c0"})
 	case "abort":
 		w.subs[o.C].aborted[o.Arg] = true
+		// a per-stream request lives on the down connection and goes with it
+		delete(w.subs[o.C].override, o.Arg)
 		obs = w.w.Send(o.C, sig.Msg{"type": "abort", "id": o.Arg})
 	case "answer":
 		sdpOffer := w.w.Clients[o.C].V.DownOffer(o.Arg)
@@ -553,7 +580,27 @@ func (w *world) Apply(x seqx.Op) *core.Violation {
 		}
 	}
 	if w.w.Quiescent() {
-		return w.quiescence()
+		if v := w.quiescence(); v != nil {
+			return v
+		}
+		// a per-stream request lives on the down connection: once the
+		// server holds none for that stream (and rightly so: the check above
+		// passed), the next push falls back to the general request
+		for _, i := range []int{1, 2} {
+			sb := w.subs[i]
+			if sb == nil {
+				continue
+			}
+			held := map[string]bool{}
+			for _, d := range w.w.Clients[i].V.Downs() {
+				held[d.ID] = true
+			}
+			for id := range sb.override {
+				if !held[id] {
+					delete(sb.override, id)
+				}
+			}
+		}
 	}
 	return nil
 }
@@ -652,8 +699,23 @@ func presets() map[string][]seqx.Op {
 		}
 		return r
 	}
+	// the stream with its last (low-quality video) track still to come: the
+	// track's arrival is a push of its own
+	stream2 := []seqx.Op{
+		op{C: 0, Kind: "offer", Arg: "s1", Arg2: "camera"},
+		op{C: 0, Kind: "track", Arg: "s1"}, op{C: 0, Kind: "track", Arg: "s1"},
+		op{C: -1, Kind: "task", N: 0}, op{C: -1, Kind: "task", N: 0}, op{C: -1, Kind: "task", N: 0},
+	}
+	// a second stream (screenshare, audio and video) next to the first
+	second := []seqx.Op{
+		op{C: 0, Kind: "offer", Arg: "s2", Arg2: "screenshare"},
+		op{C: 0, Kind: "track", Arg: "s2"}, op{C: 0, Kind: "track", Arg: "s2"},
+		op{C: -1, Kind: "task", N: 0}, op{C: -1, Kind: "task", N: 0}, op{C: -1, Kind: "task", N: 0},
+	}
 	return map[string][]seqx.Op{
 		"empty":                      nil,
+		"two-tracks-all-both":        cat(pub, []seqx.Op{op{C: 1, Kind: "request", Arg: "all"}, op{C: 2, Kind: "join", Arg: "g"}, op{C: 2, Kind: "request", Arg: "both"}}, stream2),
+		"two-streams-all":            cat(pub, []seqx.Op{op{C: 1, Kind: "request", Arg: "all"}}, stream, second),
 		"published-all-low":          cat(pub, []seqx.Op{op{C: 1, Kind: "request", Arg: "all"}, op{C: 2, Kind: "join", Arg: "g"}, op{C: 2, Kind: "request", Arg: "low"}}, stream),
 		"published-camA-other-group": cat(pub, []seqx.Op{op{C: 1, Kind: "request", Arg: "camA"}, op{C: 2, Kind: "join", Arg: "h"}, op{C: 2, Kind: "request", Arg: "all"}}, stream),
 		"published-then-request":     cat(pub, stream, []seqx.Op{op{C: 2, Kind: "join", Arg: "g"}}),
@@ -707,7 +769,12 @@ func main() {
 		sort.Strings(pnames)
 		for _, pname := range pnames {
 			pre := ps[pname]
-			if a == "full" && pname != "empty" && core.Quick() {
+			// quick: the full alphabet only from the empty state and from
+			// the two-stream state (which only it can make use of)
+			if a == "full" && pname != "empty" && pname != "two-streams-all" && core.Quick() {
+				continue
+			}
+			if a == "small" && pname == "two-streams-all" {
 				continue
 			}
 			// shard by the first operation after the preset
@@ -731,11 +798,14 @@ func main() {
 				if pname == "empty" {
 					extra = core.Pick(6, 8)
 				}
+				if a == "full" && pname == "two-streams-all" {
+					extra = core.Pick(3, 5)
+				}
 				c.MaxDepth = len(pre) + extra
 				s := seqx.Explore(c, res)
 				if x := agg[a]; x == nil {
 					s.Name = "subscriptions/" + a
-					s.Bound = fmt.Sprintf("from %d start states (empty and %d presets), depth<=%d beyond the preset", len(presets()), len(presets())-1, core.Pick(4, 6))
+					s.Bound = fmt.Sprintf("from the empty state (depth<=%d) and from %d preset states (depth<=%d beyond the preset; quick: the full alphabet only from the empty and the two-stream state, the latter to depth %d)", core.Pick(6, 8), len(presets())-1, core.Pick(4, 6), core.Pick(3, 5))
 					agg[a] = &s
 				} else {
 					x.States += s.States
